@@ -170,6 +170,7 @@ theorem step_good (sp : Bool) (s : St R) (g : Good s) (op : Op R) : Good (step A
     · have hs : s.started = true := by
         by_contra hc; exact hbad (by simp [hc])
       exact onPassed_good s _ hs g
+  | sysMem x => exact g
   | exit id =>
     simp only [step]
     split_ifs with hbad
@@ -181,6 +182,18 @@ theorem step_good (sp : Bool) (s : St R) (g : Good s) (op : Op R) : Good (step A
         have hid : e.id = id := by simpa using List.find?_some hf
         subst hid
         exact onExit_good s e hs g hf
+
+  | exitErr id =>
+    simp only [step]
+    split_ifs with hbad
+    · exact g
+    · have hs : s.started = true := by simpa using hbad
+      cases hf : s.live.find? (·.id == id) with
+      | none => exact g
+      | some e =>
+        have hid : e.id = id := by simpa using List.find?_some hf
+        subst hid
+        exact onExitErr_good s e hs g hf
 
 end invariant
 
@@ -197,6 +210,8 @@ theorem step_model_eq_spec (s : St R) (g : Good s) (op : Op R) : step A false s 
   | sysCpu x => rfl
   | clock t => rfl
   | exit id => rfl
+  | exitErr id => rfl
+  | sysMem x => rfl
   | entry id inbound batch =>
     have hb : s.started = true → blockedBy A false s inbound = blockedBy A true s inbound := by
       intro hs
@@ -338,6 +353,127 @@ theorem blocked_iff_exists_violated_nan_carrier (rs flat : List (Rule NanNat)) (
 
 end nan
 
+/-! ## the whole machine on any carrier (NaN included): end to end for everything `LoadRules` can put in force -/
+section machine_any
+variable {R : Type} [LT R] [LE R] [∀ a b : R, Decidable (a < b)] [∀ a b : R, Decidable (a ≤ b)] (A : Arith R)
+
+/-- every rule in force is judged by `doCheckRule` exactly as the predicate says (on every view) -/
+def RulesOk (s : St R) : Prop := ∀ r ∈ s.rules, ∀ v : View R, (ruleOk A v r = false ↔ violated A v r)
+
+/-- the loader only puts such rules in force (true for every linear order; true for IEEE-like comparisons since
+    the repaired `IsValidSystemRule` refuses NaN triggers) -/
+def LoadSound : Prop := ∀ (rs : List (Rule R)), ∀ r ∈ loadRules A rs, ∀ v : View R, (ruleOk A v r = false ↔ violated A v r)
+
+theorem check_eq_specBlocked_of (rules : List (Rule R)) (v : View R)
+    (h : ∀ r ∈ rules, (ruleOk A v r = false ↔ violated A v r)) (inbound : Bool) :
+    (check A inbound rules v).isSome = specBlocked A inbound rules v := by
+  cases inbound
+  · simp [check, specBlocked]
+  · apply Bool.eq_iff_iff.mpr
+    simp only [check, specBlocked, Bool.not_true, Bool.false_eq_true, if_false, List.find?_isSome, Bool.true_and,
+      List.any_eq_true, decide_eq_true_eq]
+    constructor
+    · rintro ⟨r, hr, hv⟩; exact ⟨r, hr, (h r hr).mp (by simpa using hv)⟩
+    · rintro ⟨r, hr, hv⟩; exact ⟨r, hr, by simpa using (h r hr).mpr hv⟩
+
+/-- only `load` changes the rules in force -/
+theorem step_rules (sp : Bool) (s : St R) (op : Op R) :
+    (step A sp s op).1.rules = (match op with | .load rs => loadRules A rs | _ => s.rules) := by
+  cases op with
+  | load rs => rfl
+  | sysLoad x => rfl
+  | sysCpu x => rfl
+  | sysMem x => rfl
+  | clock t => simp only [step]; split_ifs <;> rfl
+  | entry id inbound batch =>
+    simp only [step, onBlocked, onPassed]
+    split_ifs <;> rfl
+  | exit id =>
+    simp only [step]
+    split_ifs
+    · rfl
+    · cases s.live.find? (·.id == id) with
+      | none => rfl
+      | some e => simp only [onExit]; split_ifs <;> rfl
+  | exitErr id =>
+    simp only [step]
+    split_ifs
+    · rfl
+    · cases s.live.find? (·.id == id) with
+      | none => rfl
+      | some e => simp only [onExitErr, onExit]; split_ifs <;> rfl
+
+theorem rulesOk_step (hA : LoadSound A) (sp : Bool) (s : St R) (h : RulesOk A s) (op : Op R) :
+    RulesOk A (step A sp s op).1 := by
+  unfold RulesOk
+  rw [step_rules]
+  cases op with
+  | load rs => exact hA rs
+  | _ => exact h
+
+theorem step_model_eq_spec_of (s : St R) (g : Good s) (h : RulesOk A s) (op : Op R) :
+    step A false s op = step A true s op := by
+  cases op with
+  | load rs => rfl
+  | sysLoad x => rfl
+  | sysCpu x => rfl
+  | clock t => rfl
+  | exit id => rfl
+  | exitErr id => rfl
+  | sysMem x => rfl
+  | entry id inbound batch =>
+    have hb : s.started = true → blockedBy A false s inbound = blockedBy A true s inbound := by
+      intro hs
+      simp only [blockedBy, Bool.false_eq_true, if_false, if_true]
+      rw [viewOf_eq s hs g]
+      exact check_eq_specBlocked_of A s.rules _ (fun r hr => h r hr _) inbound
+    by_cases hs : s.started = true
+    · simp only [step, hb hs]
+    · have hbad : (!s.started || s.live.any (·.id == id)) = true := by simp [hs]
+      simp only [step, hbad, if_true]
+
+/-- **end to end on any carrier**: if the loader is sound for the carrier, the code-shaped machine and the Spec
+    machine agree on every op sequence -/
+theorem run_model_eq_spec_of (hA : LoadSound A) (s : St R) (g : Good s) (h : RulesOk A s) (ops : List (Op R)) :
+    run A false s ops = run A true s ops := by
+  induction ops generalizing s with
+  | nil => rfl
+  | cons o r ih =>
+    simp only [run]
+    rw [step_model_eq_spec_of A s g h o, ih _ (step_good A true s g o) (rulesOk_step A hA true s h o)]
+
+/-- memory usage is no input of system protection: injecting it changes nothing (`SetSystemMemoryUsage`) -/
+theorem sysMem_irrelevant (sp : Bool) (s : St R) (x : Int) : step A sp s (.sysMem x) = (s, .none) := rfl
+
+/-- `system.GetRules()` after `LoadRules(rs)`: exactly the valid elements of `rs` (nil pointers are invalid) -/
+theorem mem_loadRules (rs : List (Rule R)) (r : Rule R) : r ∈ loadRules A rs ↔ r ∈ rs ∧ validRule A r = true := by
+  simp [loadRules, List.mem_filter]
+
+end machine_any
+
+/-- the loader is sound on the carrier with a NaN (repaired validity check) -/
+theorem nanArith_loadSound : LoadSound nanArith := by
+  intro rs r hr v
+  apply ruleOk_false_iff_of
+  intro x hx
+  have hT := loadRules_no_nan rs r hr
+  obtain ⟨t, ht⟩ : ∃ t, r.trigger = some t := by
+    cases hh : r.trigger with
+    | none => exact absurd hh hT
+    | some t => exact ⟨t, rfl⟩
+  obtain ⟨y, hy⟩ : ∃ y, x = some y := by
+    rcases hx with h | h | h
+    · exact ⟨_, h.2⟩
+    · exact ⟨_, h.2⟩
+    · exact ⟨_, h.2⟩
+  exact nanNat_not_lt_iff x r.trigger y t hy ht
+
+/-- **C07 end to end on the carrier with NaN**: NaN / absent load and cpu readings, NaN triggers handed to
+    `LoadRules`, every op sequence — the code-shaped machine decides what the property demands -/
+theorem decisions_eq_spec_nan_carrier (load cpu : NanNat) (ops : List (Op NanNat)) :
+    (run nanArith false { load := load, cpu := cpu } ops).2 = (run nanArith true { load := load, cpu := cpu } ops).2 := by
+  rw [run_model_eq_spec_of nanArith nanArith_loadSound _ (init_good load cpu) (by intro r hr; simp at hr) ops]
+
 /-! ## non-vacuity: the hypotheses are satisfiable and both outcomes occur -/
 section examples
 
@@ -356,7 +492,7 @@ example : (check natArith true [{ metric := 0, strategy := 1, trigger := 2 }]
     { pass := 0, conc := 2, rt := 1200, complete := 3, minRt := 400, maxComplete := 3, load := 5, cpu := 0 }).isSome = false := by decide
 /-- a reachable state with a non-empty history: `Good` is not vacuous -/
 example : Good (run natArith false { load := 0, cpu := 0 }
-    [.clock 1900000000000, .load [{ metric := 2, strategy := -1, trigger := 1 }], .entry "a" true 1, .entry "b" true 1, .clock 1900000000300, .exit "a"]).1 :=
+    [.clock 1900000000000, .load [{ metric := 2, strategy := -1, trigger := 1 }], .entry "a" true 1, .entry "b" true 1, .clock 1900000000300, .exitErr "a"]).1 :=
   by
     have h := init_good (R := Nat) 0 0
     simp only [run]
